@@ -22,7 +22,7 @@ PROPERTY = "C01"
 _AXES = {
     "builder": ["probe", "planewave"],
     "potential": ["atoms", "fp_mean", "fp_nomean", "ens_mean", "ens_nomean", "crystal", "crystal_fp", "array"],
-    "exit_planes": ["none", "1", "2", "tuple"],
+    "exit_planes": ["none", "1", "2", "tuple", "open"],
     "detectors": ["none", "waves", "annular", "flexible", "segmented", "pixelated", "two"],
     "scan": ["none", "point", "custom", "line", "grid"],
     "max_batch": [1, 2, "auto"],
@@ -30,7 +30,7 @@ _AXES = {
     "api": ["builder", "waves", "scan"],
     "reuse": ["fresh", "shared_eager_first", "shared_lazy_first"],
     "grid": ["16x16", "15x18", "12x20", "17x13"],
-    "post": ["ctf", "ctf_ens", "detect"],
+    "post": ["ctf", "ctf_ens"],
 }
 
 RULE = ("pairwise covering array (vlib.hx.covering, greedy, seeded) over the discrete axes builder x potential kind x "
@@ -192,6 +192,8 @@ def _exit_planes(c, n):
         return int(ep)
     if ep == "tuple":
         return (0, n - 1) if n > 1 else (0,)
+    if ep == "open":
+        return (0,)  # a single exit plane that is not the last slice (n >= 2 always)
     if ep == "out_of_range":
         return (0, n + 6)
     raise ValueError(ep)
@@ -533,7 +535,6 @@ def run_case(case):
         o = objs()
         lz = _multislice(o, True, max_batch=mb)
         lazy_info["chunks"] = _chunks(lz)
-        lazy_info["lazy_obj"] = lz
         lazy_info["was_lazy"] = all(hasattr(x.array, "chunks") for x in _aslist(lz))
         return _compute(lz, sched)
 
@@ -611,7 +612,9 @@ def run_case(case):
         out.append(Res("C01/lazy/chunking-independent", True, "incident waves have no ensemble axis to rechunk", False))
 
     other = "threads" if sched == "synchronous" else "synchronous"
-    lz4, e4 = _attempt(lambda: _compute(lazy_info["lazy_obj"], other))
+    # NB: ArrayObject.compute() materialises its receiver in place, so a fresh lazy graph is needed here
+    o4 = objs()
+    lz4, e4 = _attempt(lambda: _compute(_multislice(o4, True, max_batch=mb), other))
     if e4 is not None:
         out.append(Res("C01/lazy/scheduler-independent", False, f"scheduler={other} raised {_fmt_exc(e4)}", True))
     else:
@@ -625,23 +628,30 @@ def run_case(case):
     w_e = _build(ob, False)
     ob2 = objs()
     w_lobj = _build(ob2, True, max_batch=mb)
-    out += _compare("build", w_e, _compute(w_lobj, sched), nontrivial=hasattr(w_lobj.array, "chunks"))
+    build_was_lazy = hasattr(w_lobj.array, "chunks")  # before compute(): it materialises the receiver in place
+    out += _compare("build", w_e, _compute(w_lobj, sched), nontrivial=build_was_lazy)
 
     # ---------------- post stage on identical in-memory input waves ------------------------------------------
     import abtem
 
+    # input of the post stages: the eager exit waves of this very pipeline (they carry every ensemble axis of the
+    # case: frozen phonons, thickness, scan), whatever detectors the case itself used
     src = None
     for cand in _aslist(eg):
         if type(cand).__name__ == "Waves":
             src = cand
             break
     if src is None:
-        src = w_e
+        os_ = objs()
+        if c["builder"] == "probe":
+            src = os_.builder.multislice(os_.potential, scan=os_.scan, detectors=None, lazy=False)
+        else:
+            src = os_.builder.multislice(os_.potential, detectors=None, lazy=False)
     nens = len(src.ensemble_shape)
     chunks = (1,) * nens + (-1, -1) if (c["max_batch"] == 1 and nens) else "auto"
     m = _max_angle(c)
     post = c["post"]
-    if post in ("ctf", "ctf_ens"):
+    if True:
         def make_ctf():
             defocus = c["defocus"] + 10.0
             if post == "ctf_ens":
@@ -657,7 +667,7 @@ def run_case(case):
             raise x_e
         if tog:
             out += _compare("ctf", r_e, r_l)
-    else:
+    if True:
         dets = ["annular", "flexible", "segmented", "pixelated", "waves"]
         for name in dets:
             r_e, x_e = _attempt(lambda: _detector(name, c).detect(src.copy()))
